@@ -337,6 +337,11 @@ func (u *uploader) ListMultipartUploads(bucket string, marker *UploadListMarker,
 		}
 	}
 
+	// Every key has been visited: nothing follows. (The iterator must not be
+	// asked again once it has run out: after a seek behind the last key it
+	// starts over.)
+	return &result, nil
+
 done:
 	// If we did not truncate while in the middle of an object's upload ID list,
 	// we need to see if there are more objects in the outer iteration:
